@@ -21,12 +21,12 @@ ASSUMPTIONS = ["decimal.Decimal, int(), saxutils.unescape implement their docume
 def run(project, rep):
     schema = Schema(project)
     schema.check_floors()
-    S.m1_from_etree(schema, rep)
-    S.m2_update_args(schema, rep)
-    V.v_rules(schema, rep)
+    rep.run(S.m1_from_etree, schema, rep)
+    rep.run(S.m2_update_args, schema, rep)
+    rep.run(V.v_rules, schema, rep)
     from .. import rules_types as T
-    T.t_r7(project, rep)
+    rep.run(T.t_r7, project, rep)
     rep.rule("V-R3", "absent children are None: Aggregate.__init__ sets every non-list spec attribute from the keyword of the same name, None when absent, through the descriptor (F-R2)")
-    F.f_r2_init(schema, rep)
-    Z.z_r4_conversion(project, rep)
-    Z.z_r5_offset_sign(project, rep)
+    rep.run(F.f_r2_init, schema, rep)
+    rep.run(Z.z_r4_conversion, project, rep)
+    rep.run(Z.z_r5_offset_sign, project, rep)
